@@ -6,6 +6,7 @@ operator sweep (one constraint per SMT-LIB operator / predicate); every recorded
 behaviour of Solver (spec/SolverTrace.tla): any other exception, or a call outcome the model does not
 allow in that state (e.g. a solution after StopIteration), rejects the trace."""
 import json
+import os
 import random
 import shutil
 
@@ -79,7 +80,7 @@ def sweep(rnd, n, calls):
     gname = "NUM"
     g = catalogue.GRAMMARS[gname]
     gj = pj.grammar_to_json(g)
-    terms = [t for fam, t in smt.grid(rnd.randrange(10 ** 6), 0.2)]
+    terms = [t for fam, t in smt.grid(rnd.randrange(10 ** 6), 0.2) if fam != "bignum"]
     rnd.shuffle(terms)
     seen = set()
     for t in terms:
@@ -160,7 +161,8 @@ def run(chk, cases, timeout):
         for t in traces[:: max(1, len(traces) // 4)][:4]:
             chk.sample({"constraint": t["case"]["text"], "settings": t["case"]["settings"], "ticks": t["case"]["ticks"], "outcomes": t["solutions"]})
     finally:
-        shutil.rmtree(wd, ignore_errors=True)
+        if not os.environ.get("VERIF_KEEP"):
+            shutil.rmtree(wd, ignore_errors=True)
 
 
 def main(tier):
